@@ -21,11 +21,13 @@ Local Open Scope N_scope.
                prefixToIndex accepted foreign prefixes) - and everything below
    SharedVrf : before 85029df (one poolVRFs map shared by the three pool families) - and everything below
    Unguarded : before a1ebdc8 / 1de6b72 (range loops of buildFreeList / parseExcludeRange ran past the last
-               address; NewPrefixAllocator accepted prefix lengths above 128) *)
-Inductive variant := Repaired | Defective | SharedVrf | Unguarded.
+               address; NewPrefixAllocator accepted prefix lengths above 128) - and the one below
+   V4Pd      : NewPrefixAllocator accepts an IPv4 network for a PD pool (see pd_new) *)
+Inductive variant := Repaired | Defective | SharedVrf | Unguarded | V4Pd.
 Definition is_defective (v : variant) : bool := match v with Defective => true | _ => false end.
 Definition shared_vrf (v : variant) : bool := match v with Defective | SharedVrf => true | _ => false end.
-Definition unguarded (v : variant) : bool := match v with Repaired => false | _ => true end.
+Definition unguarded (v : variant) : bool := match v with Repaired | V4Pd => false | _ => true end.
+Definition v4pd (v : variant) : bool := match v with Repaired => false | _ => true end.
 
 Inductive family := V4 | V6.
 Definition fam_eqb (a b : family) : bool :=
@@ -233,21 +235,28 @@ Definition W128 : N := 340282366920938463463374607431768211456.  (* 2^128 *)
 
 Record pdcfg := { pd_net : N;      (* network address as configured (128-bit number) *)
                   pd_nbits : N;    (* network.Bits() *)
-                  pd_plen : N }.   (* delegated prefix length *)
+                  pd_plen : N;     (* delegated prefix length *)
+                  pd_v4 : bool }.  (* the configured network is an IPv4 prefix (pd_net is then a 32-bit number) *)
 
-(* network.Masked().Addr() *)
+(* network.Masked().Addr(), as the 16 bytes indexToIPNet / prefixToIndex work on (As16): an IPv4 network is
+   masked as a 32-bit address and then mapped to ::ffff:a.b.c.d *)
 Definition pd_base (c : pdcfg) : N :=
-  let m := N.pow 2 (128 - pd_nbits c) in (pd_net c / m) * m.
+  if pd_v4 c
+  then let m := N.pow 2 (32 - pd_nbits c) in 281470681743360 + (pd_net c / m) * m
+  else let m := N.pow 2 (128 - pd_nbits c) in (pd_net c / m) * m.
 Definition pd_count (c : pdcfg) : N := N.pow 2 (pd_plen c - pd_nbits c).
 (* NewPrefixAllocator returns nil unless 0 <= plen - nbits <= 63 *)
 Definition pd_valid (c : pdcfg) : bool :=
   N.leb (pd_nbits c) (pd_plen c) && N.leb (pd_plen c - pd_nbits c) 63.
-(* repaired: additionally the prefix length must fit the address (plen <= 128) *)
+(* since 1de6b72 additionally prefixLength <= network.Addr().BitLen() (32 for an IPv4 network);
+   repaired: additionally the network must be an IPv6 prefix - prefix delegation is IPv6 only, and for an
+   IPv4 network the 128-bit index arithmetic runs on the mapped address ::ffff:a.b.c.d and produces
+   prefixes far outside the configured network *)
 Definition pd_new (v : variant) (c : pdcfg) : bool :=
-  pd_valid c && (unguarded v || N.leb (pd_plen c) 128).
-(* the domain of the arithmetic theorems: plen <= 128, network < 2^128 *)
+  pd_valid c && (unguarded v || N.leb (pd_plen c) (if pd_v4 c then 32 else 128)) && (v4pd v || negb (pd_v4 c)).
+(* the domain of the arithmetic theorems: IPv6 network < 2^128, plen <= 128 *)
 Definition pd_wf (c : pdcfg) : bool :=
-  pd_valid c && N.leb (pd_plen c) 128 && N.ltb (pd_net c) W128.
+  pd_valid c && N.leb (pd_plen c) 128 && N.ltb (pd_net c) W128 && negb (pd_v4 c).
 
 (* indexToIPNet: base + idx << (128 - plen) on two uint64 words *)
 Definition index_to_prefix (c : pdcfg) (idx : N) : N :=
@@ -556,7 +565,8 @@ Definition spec_geom (v : variant) (f : rfam) (sp : pool_spec) : option (option 
   | Some (na, bits) =>
       match f with
       | FPD =>
-          let c := {| pd_net := snd na; pd_nbits := bits; pd_plen := sp_plen sp |} in
+          let c := {| pd_net := snd na; pd_nbits := bits; pd_plen := sp_plen sp;
+                      pd_v4 := match fst na with V4 => true | V6 => false end |} in
           Some (if pd_new v c then Some (APd c) else None)
       | _ =>
           let m := N.pow 2 (fam_width (fst na) - bits) in
